@@ -855,6 +855,13 @@ func (e *Env) call(ex *Expr) Value {
 		rs := SInt
 		if ret == "bool" {
 			rs = SBool
+		} else if ret != "int" {
+			// an element type name: the result has that type's sort (abstract element sorts for non-int types)
+			bt, ok := basicByName[ret]
+			if !ok {
+				e.fail("ufun %s: unknown result type %q", name, ret)
+			}
+			rs = sortOf(bt)
 		}
 		fn := "u!" + smtName(name)
 		if strings.HasPrefix(name, "summ_") {
